@@ -21,8 +21,8 @@ func init() {
 			"(b) real and zcrypto-created certificates with 1-4 stacked structure-aware mutations; each one accepted by ParseCertificate (strict, else permissive) gets: json.Marshal x2 (bytes compared), " +
 			"JsonifyExtensions, CollectAllNames, VerifyHostname x6, GetParsedDNSNames, CertPool.AddCert/Contains, Graph.AddCert/AddRoot, and CheckSignatureFrom + CheckSignature against every certificate " +
 			"of its batch of 16 as parent and as child; non-trivial = accepted with >= 1 extension; distinct by hash of the DER bytes",
-		MinNontrivial:         6000,
-		MinNontrivialThorough: 150000,
+		MinNontrivial:         7500,
+		MinNontrivialThorough: 250000,
 		Shards:                16,
 		GoMaxProcs:            2,
 		Assumptions: []string{
@@ -109,7 +109,11 @@ func c02Single(c *core.Ctx, x c02Cert, id string) {
 		h := h
 		op("VerifyHostname", func() { x.c.VerifyHostname(h) })
 	}
-	op("GetParsedDNSNames", func() { x.c.GetParsedDNSNames(false); x.c.GetParsedDNSNames(true); x.c.GetParsedSubjectCommonName(true) })
+	op("GetParsedDNSNames", func() {
+		x.c.GetParsedDNSNames(false)
+		x.c.GetParsedDNSNames(true)
+		x.c.GetParsedSubjectCommonName(true)
+	})
 	op("CertPool.AddCert", func() {
 		p := zx509.NewCertPool()
 		p.AddCert(x.c)
@@ -153,7 +157,9 @@ func c02Batch(c *core.Ctx, batch []c02Cert, id string) {
 			if pi := core.Guard(func() { child.c.CheckSignatureFrom(parent.c) }); pi != nil {
 				c.Violation(panicKey(pi), fmt.Sprintf("child.CheckSignatureFrom(parent)\npanic: %s\n%s", pi.Value, pi.Stack), pid, in)
 			}
-			if pi := core.Guard(func() { parent.c.CheckSignature(child.c.SignatureAlgorithm, child.c.RawTBSCertificate, child.c.Signature) }); pi != nil {
+			if pi := core.Guard(func() {
+				parent.c.CheckSignature(child.c.SignatureAlgorithm, child.c.RawTBSCertificate, child.c.Signature)
+			}); pi != nil {
 				c.Violation(panicKey(pi), fmt.Sprintf("parent.CheckSignature(child.SignatureAlgorithm, child.RawTBSCertificate, child.Signature)\npanic: %s\n%s", pi.Value, pi.Stack), pid, in)
 			}
 		}
@@ -249,7 +255,7 @@ func runC02(c *core.Ctx) {
 		}
 	}
 	ig := newInputGen(c.Rng)
-	n := c.PerShard(c.Pick(40000, 2000000))
+	n := c.PerShard(c.Pick(40000, 1500000))
 	var batch []c02Cert
 	nb := 0
 	flush := func() {
